@@ -27,7 +27,7 @@ func init() {
 		},
 		Run:            c16Run,
 		Floor:          func(tier string) int { return 800 },
-		Rule:           "models built from per-sample operators along a tracked batch axis: (A) dense chains on [N,F] (Gemm/MatMul against weights, elementwise with per-feature weights, Relu/Tanh/Sigmoid, PRelu, Softmax/LogSoftmax over the feature axis, Scaler, LinearRegressor, Concat/Gather/Slice on the feature axis, Flatten/Unsqueeze/Squeeze/Reshape that keep the batch axis), (B) Conv on [N,C,H,W] followed by Flatten and Gemm, (C) RNN/GRU/LSTM on [S,N,I] (batch on axis 1) followed by Squeeze and elementwise operators; plus the sample models mlp, gru, scaler, ndm. For batch sizes 2..6 the real code is its own reference: Run(batch)[i] ~ Run(sample i alone), Run(permuted batch) ~ permuted Run(batch), Run(sub-selection) ~ the selected rows (tolerance 2e-4 abs+rel: BLAS blocking may differ with the batch size; a row-mixing defect changes results by O(1)); success/failure must agree between the batch and its parts. Non-trivial = batch >= 2 with rows that differ; distinct = (model structure, batch size, relation).",
+		Rule:           "models built from per-sample operators along a tracked batch axis: (A) dense chains on [N,F] (Gemm/MatMul against weights, elementwise with per-feature weights, Relu/Tanh/Sigmoid, PRelu, Softmax/LogSoftmax over the feature axis, Scaler, LinearRegressor, Concat/Gather/Slice on the feature axis, Flatten/Unsqueeze/Squeeze/Reshape that keep the batch axis), (B) Conv on [N,C,H,W] followed by Flatten and Gemm, (C) RNN/GRU/LSTM on [S,N,I] (batch on axis 1) followed by Squeeze and elementwise operators; plus the sample models mlp, gru, scaler, ndm. For batch sizes 2..6 the real code is its own reference: Run(batch)[i] ~ Run(sample i alone), Run(permuted batch) ~ permuted Run(batch), Run(sub-selection) ~ the selected rows; in half of the cases the batch and its parts run on ONE loaded model (alternating batch sizes), otherwise on freshly loaded models (tolerance 2e-4 abs+rel: BLAS blocking may differ with the batch size; a row-mixing defect changes results by O(1)); success/failure must agree between the batch and its parts. Non-trivial = batch >= 2 with rows that differ; distinct = (model structure, batch size, relation).",
 		RaceInThorough: true,
 		Technique:      "runtime monitoring: metamorphic relations on the real code (batch decomposition, permutation, sub-selection)",
 		Assumptions:    []string{"the generator only emits operators that act per sample along the tracked batch axis"},
@@ -324,9 +324,23 @@ func c16Run(c *Ctx) {
 	c.SetCase("model %s | batch %d | relation %s | feed %s", trunc(bm.desc, 700), N, relation, feedString(feed))
 	c.Nontrivial(fmt.Sprintf("%s|%d|%s", bm.desc, N, relation))
 	c.Count("relation:"+relation, 1)
+	// in half of the cases the batch and its parts are evaluated on ONE loaded model
+	// (alternating batch sizes on a model, as a server does), otherwise on fresh models
+	var sess *mon.Session
+	if c.Idx%2 == 1 {
+		if sess = mon.NewSession(spec.Bytes); sess.Err != nil {
+			sess = nil
+		}
+	}
+	c.Count(fmt.Sprintf("one-loaded-model:%v", sess != nil), 1)
 	run := func(f map[string]*ref.T) (map[string]*ref.T, mon.Outcome) {
 		g := spec.Outputs
-		o := mon.RunBytes(spec.Bytes, f, g)
+		var o mon.Outcome
+		if sess != nil {
+			o = sess.Run(f, g)
+		} else {
+			o = mon.RunBytes(spec.Bytes, f, g)
+		}
 		c.Eval(1)
 		res := map[string]*ref.T{}
 		if o.Kind == mon.Value {
